@@ -40,7 +40,7 @@ import (
 //     variant T C L R   (TINK CRUNCHY LEGACY NO_PREFIX); id decimal uint32
 //     muts    ';' separated mutations applied to the computed tag before VerifyMAC:
 //             =  f<bit>  t<n> (drop last n)  h<n> (drop first n)  e<hex> (append)
-//             x<hex> (this tag instead)  z (empty tag)  m<hex> (other message)  a<hex> (message||hex)
+//             p<hex> (prepend)  x<hex> (this tag instead)  z (empty tag)  m<hex> (other message)  a<hex> (message||hex)
 //             mutations joined by '+' are applied left to right (f3+f3 restores the tag)
 //     extra   path I with HMAC: ',' separated split points of the message into parts
 // case line (a crypto/hmac object, hmacobj.go):  C04|W|<hash>|<key hex>|<op;op;...>
@@ -303,6 +303,8 @@ func mutate(mu string, tag, msg []byte) ([]byte, []byte) {
 		t = t[n:]
 	case 'e':
 		t = append(t, hx.UH(arg)...)
+	case 'p':
+		t = append(hx.UH(arg), t...)
 	case 'x':
 		t = hx.UH(arg)
 	case 'z':
@@ -794,8 +796,27 @@ func genMsg(r *hx.Rng, alg string) []byte {
 	return m
 }
 
+// refPrefixOf: the output prefix the variant and id of s spell out (5 bytes or none).
+func refPrefixOf(s keySpec) []byte {
+	switch s.variant {
+	case "T":
+		return []byte{1, byte(s.id >> 24), byte(s.id >> 16), byte(s.id >> 8), byte(s.id)}
+	case "C", "L":
+		return []byte{0, byte(s.id >> 24), byte(s.id >> 16), byte(s.id >> 8), byte(s.id)}
+	}
+	return nil
+}
+
 func genMuts(r *hx.Rng, msg []byte, tagLen int, s *keySpec, framed bool) string {
 	muts := []string{"="}
+	// bytes in front of a genuine tag (a prefix search that is not anchored at the start accepts them)
+	muts = append(muts, "p"+hx.H(r.Bytes(1+r.Intn(6))))
+	if framed && s != nil {
+		// ... also a copy of the key's own prefix in front of the genuine tag
+		if pre := refPrefixOf(*s); len(pre) > 0 && r.Chance(50) {
+			muts = append(muts, "p"+hx.H(pre))
+		}
+	}
 	k := 3 + r.Intn(5)
 	for i := 0; i < k; i++ {
 		switch r.Intn(17) {
